@@ -304,7 +304,10 @@ func dialRoute(
 		backendHost := netutil.HostStr(backendAddr)
 		if !strings.EqualFold(clearedHost, backendHost) {
 			// Modify the handshake packet to use the backend host as virtual host.
-			handshake.ServerAddress = strings.ReplaceAll(handshake.ServerAddress, clearedHost, backendHost)
+			// Replace the host part only (its first occurrence): text behind it (Forge marker,
+			// TCPShield real-IP suffix) is not a virtual host, and with an empty cleared host
+			// ReplaceAll would insert the backend host at every rune boundary.
+			handshake.ServerAddress = strings.Replace(handshake.ServerAddress, clearedHost, backendHost, 1)
 			forceUpdatePacketContext = true
 		}
 	}
